@@ -69,6 +69,35 @@ pub fn run(ctx: &Ctx) -> Report {
             programs.push((format!("generated:{}", i), s, false));
         }
     }
+    // C01's heap-shape programs (holder chains up to length 1; the listed finding's shape excluded):
+    // every kind of object kept alive only through one kind of edge while garbage is allocated
+    for (i, s) in crate::c01::shape_sources_for_c10().into_iter().enumerate() {
+        if thorough || i % 2 == 0 {
+            programs.push((format!("heap_shape:{}", i), s, false));
+        }
+    }
+    // loops whose body allocates many fresh objects of one kind while the loop's own iterable and
+    // iterator are live: what a collection at every allocation (checked builds) frees and reuses at once
+    // shows as a different loop in the optimised builds
+    {
+        let iterables = ["0..3", "3..0", "[1, 2, 3]", "(1, 2, 3)", "\"abc\"", "[1, 2, 3].iter().map(|e| e * 2)", "[1, 2, 3].iter().filter(|e| e > 1)", "{\"a\": 1, \"b\": 2}.keys()"];
+        let churns = [
+            "var j = [900..901, 900..902, 900..903, 900..904, 900..905, 900..906, 900..907, 900..908, 900..909, 900..910];",
+            "var j = [[1], [2], [3], [4], [5], [6], [7], [8], [9], [10]];",
+            "var j = [(1, 2), (3, 4), (5, 6), (7, 8), (9, 10), (11, 12), (13, 14), (15, 16), (17, 18)];",
+            "var j = [\"a\" + \"${n}\", \"b\" + \"${n}\", \"c\" + \"${n}\", \"d\" + \"${n}\", \"e\" + \"${n}\", \"f\" + \"${n}\", \"g\" + \"${n}\", \"h\" + \"${n}\", \"i\" + \"${n}\"];",
+            "var j = [{1: 2}, {3: 4}, {5: 6}, {7: 8}, {9: 10}, {11: 12}, {13: 14}, {15: 16}, {17: 18}];",
+            "var j = [|| n, || n + 1, || n + 2, || n + 3, || n + 4, || n + 5, || n + 6, || n + 7, || n + 8];",
+            "var j = [[1].iter(), [2].iter(), (3,).iter(), \"s\".iter(), (5..6).iter(), [6].iter(), (7,).iter(), \"t\".iter(), (9..10).iter()];",
+        ];
+        let mut k = 0;
+        for it in iterables {
+            for ch in churns {
+                programs.push((format!("loop_churn:{}", k), format!("var n = 0;\nfor x in {} {{\n  {}\n  n += 1;\n  print(x);\n  if n > 50 {{ break; }}\n}}\nprint(n);\n", it, ch), false));
+                k += 1;
+            }
+        }
+    }
     let n_programs = programs.len();
     // per worker: one runner per configuration + the checked hooks runner as the gate
     let queue = Arc::new(Mutex::new(programs.into_iter()));
